@@ -239,6 +239,9 @@ bool FIXReader::read(f8String& to)	// read a complete FIX message
 				if (*tag != '9' || tag[1])
 					throw IllegalMessage(to, FILE_LINE);
 
+				if (*val && !isdigit(*val))	// the first character came with the preamble, unchecked
+					throw IllegalMessage(to, FILE_LINE);
+
 				const unsigned mlen(fast_atoi<unsigned>(val));
 				if (mlen == 0 || mlen > _max_msg_len - _bg_sz - _chksum_sz) // invalid msglen
 					throw InvalidBodyLength(mlen);
